@@ -245,6 +245,16 @@ class Check:
         if len(self.samples) < 6 and (self.evaluations in (1, 7, 50, 400, 3000, 20000)):
             self.samples.append(inp)
 
+    def bulk(self, evaluations, distinct, kind=None, sample=None):
+        """register a batch explored elsewhere (worker process); `distinct` must be a measured count of
+        distinct non-trivial cases of the batch (e.g. an enumeration without repetition)"""
+        self.evaluations += evaluations
+        self._bulk_distinct = getattr(self, "_bulk_distinct", 0) + distinct
+        if kind:
+            self.count(kind, evaluations)
+        if sample is not None and len(self.samples) < 6:
+            self.samples.append(sample)
+
     def corr_break(self, op, inp, impl, model):
         if len(self.corr_breaks) < 50:
             self.corr_breaks.append({"op": op, "input": inp, "impl": impl, "model": model})
@@ -325,7 +335,7 @@ class Check:
             "theorems": lean.obligations if lean else [],
             "undischarged": lean.failed if lean else {},
             "evaluations": self.evaluations,
-            "distinct_nontrivial": len(self.nontrivial),
+            "distinct_nontrivial": len(self.nontrivial) + getattr(self, "_bulk_distinct", 0),
             "rule": self.rule,
             "samples": self.samples[:6],
             "distribution": dict(sorted(self.dist.items())),
@@ -342,3 +352,16 @@ class Check:
         }
         with open(os.path.join(EVIDENCE, "%s.json" % self.prop), "w") as f:
             json.dump(ev, f, indent=1, default=str)
+
+
+# --------------------------------------------------------------------------- parallel exploration
+
+def parallel(fn, jobs, procs=None):
+    """run fn(job) for every job in forked worker processes; returns the results in order"""
+    import multiprocessing as mp
+    procs = procs or min(16, os.cpu_count() or 1, max(1, len(jobs)))
+    if procs <= 1 or len(jobs) <= 1:
+        return [fn(j) for j in jobs]
+    ctx = mp.get_context("fork")
+    with ctx.Pool(procs) as pool:
+        return pool.map(fn, jobs, chunksize=1)
